@@ -151,6 +151,20 @@ pub fn check_list(ctx: &mut Ctx, list: &[REntry], codec: u8, with_async: bool, r
             Ok(Err(e)) => ctx.violation("Directory::from_async_reader", "foreign-rejected", "independent encoder's output refused", &e.to_string(), mat(list, codec)),
             Err(p) => ctx.panic("Directory::from_async_reader", &p, mat(list, codec)),
         }
+        // the sync stream parser over a reader that returns fewer bytes than asked for
+        let mut sr = crate::io::Inst::new(foreign.clone());
+        sr.c.rsched = Sched::Random(Rng::new(rng.next()), 64);
+        match guard(|| Directory::from_reader(&mut sr, flen, comp)) {
+            Ok(Ok(d)) => {
+                if gen::from_lib_entries(&d) != list {
+                    ctx.violation("Directory::from_reader", "foreign-decode", "stream parser decodes the independent encoder's output to different entries", "entries differ", mat(list, codec));
+                } else {
+                    ctx.count("stream_parser_short_reads_ok");
+                }
+            }
+            Ok(Err(e)) => ctx.violation("Directory::from_reader", "foreign-rejected", "independent encoder's output refused by the stream parser", &e.to_string(), mat(list, codec)),
+            Err(p) => ctx.panic("Directory::from_reader", &p, mat(list, codec)),
+        }
         ctx.count("async_twins");
     }
 }
